@@ -140,7 +140,7 @@ def rule_checksum(ck: Check, repo: Repo) -> None:
 
         def store(self, ttext, vt, target, it):
             if ttext.endswith(".chk_sum") or ttext.endswith(".spdx_id"):
-                return ("store", ttext.split(".")[-1], vt)
+                return ("store", ttext.split(".")[-1], vt, ttext.rsplit(".", 1)[0])
             return None
 
         def event(self, text, call, it):
@@ -162,8 +162,16 @@ def rule_checksum(ck: Check, repo: Repo) -> None:
         r.instance(f"generate:do_checksum={d.get('do_checksum')}", {"chk_sum": st.get("chk_sum"), "id_inputs": ups})
         if d.get("do_checksum") and st.get("chk_sum") != "_checksum(Path(path))":
             r.violation(f"{RP}.FileReport.generate", "chk_sum source", f"{st.get('chk_sum')}", repo.loc(g))
-        if len(ups) != 2 or ".name.encode('utf-8')" not in ups[0] or ".chk_sum.encode('utf-8')" not in ups[1]:
-            r.violation(f"{RP}.FileReport.generate", "SPDXID inputs", f"SPDXID must derive from name and checksum: {ups}", repo.loc(g))
+        obj = next((e[3] for e in leaf.events if e[0] == "store" and e[1] == "spdx_id"), None)
+        want_ups = [f"{obj}.name.encode('utf-8')", f"{obj}.chk_sum.encode('utf-8')"]
+        if ups != want_ups:
+            r.violation(f"{RP}.FileReport.generate", "SPDXID inputs",
+                        f"SPDXID must be a digest of the report's name (the root-relative path written as FileName) and its"
+                        f" checksum; it is a digest of {[u.replace(str(obj), '<report>') for u in ups]} - two files can then share an id",
+                        repo.loc(g))
+        if obj is None or not re.match(r"cls\(f'\./\{project\.relative_from_root\(Path\(path\)\)\}', Path\(path\)", obj):
+            r.violation(f"{RP}.FileReport.generate", "report name is not the root-relative path",
+                        f"report = {str(obj)[:80]}; FileName / SPDXID uniqueness rests on name = './<path relative to the root>'", repo.loc(g))
         if not re.fullmatch(r"f'SPDXRef-\{(spdx_id|md5\(\))\.hexdigest\(\)\}'", st.get("spdx_id") or ""):
             r.violation(f"{RP}.FileReport.generate", "SPDXID form", f"{st.get('spdx_id')}", repo.loc(g))
     cmds = repo.commands()
